@@ -7,6 +7,20 @@ TRUST = ("trusted base: go/types + go/ssa (x/tools v0.50.0), goyacc v0.29.0's LA
          "interface calls that leave the module (Entry, plugins) are opaque")
 
 CHECKS = {
+    "C14": dict(
+        cat="other",
+        text=("Decides the structural rules behind config/status/if-feature/deviations: the properties each deviate kind accepts equal RFC 6020 7.18.3.2; the status constants are ordered and getStatus / assertReferenceStatus reject exactly 'own < inherited' and 'source < destination within one module'; getConfig is evaluated as a truth table over (inherited, own) — rejects exactly (false, true), returns own if present else inherited; IgnoreNode ignores not-supported nodes and any node with a disabled if-feature; isFeatureValid is the conjunction, accumulated over every dependency, of the feature's own enablement, and if-feature reads the verified value; BuildNode applies overrideInherited first and hands its result to every kind-specific builder; deviate delete removes the statement matched by type and argument, replace requires existence and substitutes by type, add appends."),
+        ref="DESIGN.md §4 C14",
+        technique="switch case-set comparison with RFC 6020, truth-table evaluation of small boolean guards, accumulator-shape and value-provenance rules on the type-checked AST",
+        note="Not decided: equivalence of deviations with a source edit on whole trees; which features a caller enables. " + TRUST,
+    ),
+    "C20": dict(
+        cat="other",
+        text=("Decides that filtering is applied uniformly and purely: BuildNode has exactly two callers, and in both every node it returns reaches the append only through the test `c.filter != nil && !c.filter(node) -> continue` with no other conjunct (so no node class, e.g. list keys, can bypass it); IsConfig/IsState/Include/Exclude/IncludeState have the documented boolean structure (IsState = not config and not opd; Include a disjunction, Exclude its negation, nil members skipped); the predicates and combinator closures write nothing through the node they inspect and no global (SSA write/escape summaries over all in-module implementations of the node interface); the default-case check is skipped exactly when a filter is set and rejects the choice itself."),
+        ref="DESIGN.md §4 C20",
+        technique="who-calls + must-pass-through shape rule, boolean-structure extraction, SSA purity (write/escape) analysis of the predicates",
+        note="Not decided: whole-tree equality with the pruned unfiltered compile; caller-supplied filters. " + TRUST,
+    ),
     "C13": dict(
         cat="other",
         text=("Decides the structural pieces of type narrowing and default inheritance: the restriction-kind table equals RFC 6020 section 9 per base type and validateRestrictions rejects kinds outside the row; getDefault is 'own default if given, else the base type's' and BuildBaseType hands the typedef's default inward (nearest definition wins); the four range-boundary comparator implementations agree on their operator and operand order (< , > , lower+1 == higher; false for decimal64); the rejecting comparisons of validateRangeBoundaries, createRangeBdry and getLength — rendered independently of local names, by the provenance of each operand — are the expected ones, and the subset-of-a-base-part test of getLength reads the resolved bounds only; validateDefault is called unconditionally before the single return of makeBuiltinType and refineType and uses the type's own Validate."),
